@@ -319,7 +319,7 @@ func check(prop, tier, only, repoDir, verifDir string, workers, par, seed int, d
 				if len(ob.Vars) > 0 && probeBudget > 0 {
 					// last resort for an undecided obligation: native evaluation at pseudo-random
 					// points (bug hunting only: a hit is a replayed violation, a miss proves nothing)
-					ob.ProbeModels = append(ob.ProbeModels, randomModelsB(ob.Vars, ob.Bounds, 120, seed+len(ob.Label))...)
+					ob.ProbeModels = append(ob.ProbeModels, randomModelsO(ob.Vars, ob.Bounds, ob.Orders, 200, seed+len(ob.Label))...)
 					probeBudget--
 				}
 				if os.Getenv("GOSMT_DEBUG") != "" {
@@ -535,6 +535,10 @@ func writeBrokenEvidence(verifDir, prop, tier string, seed int, why string, wall
 func randomModels(vars map[string]Sort, n int, seed int) []Model { return randomModelsB(vars, nil, n, seed) }
 
 func randomModelsB(vars map[string]Sort, bounds map[string][2]float64, n int, seed int) []Model {
+	return randomModelsO(vars, bounds, nil, n, seed)
+}
+
+func randomModelsO(vars map[string]Sort, bounds map[string][2]float64, orders [][2]string, n int, seed int) []Model {
 	var names []string
 	for v := range vars {
 		if strings.HasPrefix(v, "sym:") {
@@ -548,6 +552,7 @@ func randomModelsB(vars map[string]Sort, bounds map[string][2]float64, n int, se
 	var out []Model
 	for k := 0; k < n; k++ {
 		m := Model{}
+		fvals := map[string]float64{}
 		prev, havePrev := 0.0, false
 		for _, v := range names {
 			switch vars[v] {
@@ -591,14 +596,7 @@ func randomModelsB(vars map[string]Sort, bounds map[string][2]float64, n int, se
 					}
 				}
 				prev, havePrev = x, true
-				if x < 0 {
-					m[v] = fmt.Sprintf("(- %v)", strconv.FormatFloat(-x, 'f', -1, 64))
-				} else {
-					m[v] = strconv.FormatFloat(x, 'f', -1, 64)
-					if !strings.Contains(m[v], ".") {
-						m[v] += ".0"
-					}
-				}
+				fvals[v] = x
 			case SBool:
 				m[v] = []string{"true", "false"}[next()%2]
 			default:
@@ -607,6 +605,36 @@ func randomModelsB(vars map[string]Sort, bounds map[string][2]float64, n int, se
 					m[v] = fmt.Sprintf("(_ bv%d %d)", x, vars[v].Bits())
 				} else {
 					m[v] = fmt.Sprint(x)
+				}
+			}
+		}
+		// repair violated sym <= sym assumptions (two passes: chains of two)
+		for pass := 0; pass < 2; pass++ {
+			for _, o := range orders {
+				x, okx := fvals[o[0]]
+				y, oky := fvals[o[1]]
+				if okx && oky && x > y {
+					lo := 0.0
+					if b, ok := bounds[o[0]]; ok {
+						lo = b[0]
+					}
+					if y >= lo {
+						u := float64(next()%1000) / 1000.0
+						if next()%4 == 0 {
+							u = 1
+						}
+						fvals[o[0]] = lo + u*(y-lo)
+					}
+				}
+			}
+		}
+		for v, x := range fvals {
+			if x < 0 {
+				m[v] = fmt.Sprintf("(- %v)", strconv.FormatFloat(-x, 'f', -1, 64))
+			} else {
+				m[v] = strconv.FormatFloat(x, 'f', -1, 64)
+				if !strings.Contains(m[v], ".") {
+					m[v] += ".0"
 				}
 			}
 		}
@@ -624,7 +652,7 @@ func probeNatively(rp *Replayer, hs *HarnessSpec, ob *Obligation, all []*Harness
 	*budget--
 	saved := ob.Model
 	defer func() { ob.Model = saved }()
-	for _, pm := range randomModelsB(ob.Vars, ob.Bounds, 300, seed+len(ob.Label)+7) {
+	for _, pm := range randomModelsO(ob.Vars, ob.Bounds, ob.Orders, 300, seed+len(ob.Label)+7) {
 		ob.Model = pm
 		ro := rp.Replay(hs, ob, all, tier, known, dir)
 		if ro.Reproduced {
